@@ -64,6 +64,12 @@ fn main() {
         }
         return;
     }
+    if args[1] == "--oneshot-client" {
+        // used by C08: a client that is a separately exec'ed process
+        let n: usize = args.get(3).and_then(|s| s.parse().ok()).unwrap_or(1);
+        let big_every: usize = args.get(4).and_then(|s| s.parse().ok()).unwrap_or(0);
+        std::process::exit(props::c08::client_main(&args[2], n, big_every));
+    }
     let mut tier = match std::env::var("VERIF_TIER").as_deref() {
         Ok("thorough") => Tier::Thorough,
         _ => Tier::Quick,
